@@ -133,6 +133,8 @@ def diff(b1, b2, limit=6):
             out.append(f'{p}: {x!r} != {y!r}')
         else:
             for k in sorted(set(x) | set(y)):
+                if ('EXC', 'SystemError') in (x.get(k), y.get(k)):
+                    continue  # CPython 3.12.1's tokenizer fails on some nested f-strings (SystemError out of the C tokenizer): not an answer of pfst
                 if x.get(k) != y.get(k):
                     out.append(f'{p}.{k}: live={x.get(k)!r} fresh={y.get(k)!r}')
         if len(out) >= limit:
